@@ -100,6 +100,7 @@ func (c *Command) UnmarshalBinary(uplink bool, data []byte) error {
 	}
 
 	c.CID = CID(data[0])
+	c.Payload = nil
 
 	p, err := GetCommandPayload(uplink, c.CID)
 	if err != nil {
@@ -145,6 +146,7 @@ func (c Commands) MarshalBinary() ([]byte, error) {
 // UnmarshalBinary decodes a slice of bytes into a slice of commands.
 func (c *Commands) UnmarshalBinary(uplink bool, data []byte) error {
 	var i int
+	*c = nil
 
 	for i < len(data) {
 		var cmd Command
@@ -451,6 +453,7 @@ func (p *DevUpgradeImageAnsPayload) UnmarshalBinary(data []byte) error {
 
 	p.Status.UpImageStatus = UpImageStatus(data[0] & 0x3)
 
+	p.nextFirmwareVersion = nil
 	if p.Status.IsFirmwareImageValid() {
 		if len(data) < p.Size() {
 			return fmt.Errorf("lorawan/applayer/firmwaremanagement: %d bytes are expected", p.Size())
